@@ -176,10 +176,10 @@ Definition valid_out (kind : Z) (out : obs) : bool :=
   | _ => true end.
 Definition model_fromstr (kind : Z) (s : text) : obs :=
   match kind with
-  | 0 => obs_date (date_parse 2000 s [121;121;121;121;45;77;77;45;100;100])
-  | 1 => obs_tm (time_parse s [72;72;58;109;109;58;115;115])
+  | 0 => obs_date (date_from_str 2000 s)
+  | 1 => obs_tm (time_from_str s)
   | 3 => match parse_expression s with Some _ => OOk [] [] | None => OErr 2 [] end
-  | _ => obs_dt (dt_parse_rfc3339 s)
+  | _ => obs_dt (dt_from_str s)
   end.
 Definition check_C14 (c : case) : Z :=
   match c_op c, c_ints c, c_strs c with
@@ -194,9 +194,7 @@ Definition check_C14 (c : case) : Z :=
 
 (* ---------------------------------------------------------------- C20 *)
 Definition P_DATE_DISPLAY : text := [121;121;121;121;47;77;77;47;100;100].
-Definition P_TIME : text := [72;72;58;109;109;58;115;115].
 Definition P_DT_DISPLAY : text := P_DATE_DISPLAY ++ [32] ++ P_TIME.
-Definition P_DATE_ISO : text := [121;121;121;121;45;77;77;45;100;100].
 Definition model_ser (kind : Z) (val : list Z) : obs :=
   match kind, val with
   | 0, [d] => obs_text (date_format d P_DATE_ISO)
